@@ -139,6 +139,7 @@ func main() {
 		extra: map[string]any{}}
 	gen(c)
 	c.Case("held-outputs", fmt.Sprintf("expect ok #held %d", len(heldOuts)), heldVerdict())
+	c.Case("decoder-refusals", "expect ok #refusals", refusalVerdict())
 	c.cases.Flush()
 	c.impl.Flush()
 	cf.Close()
